@@ -11,6 +11,9 @@ import VirtioVerif.Model.VsockConn
 import VirtioVerif.Model.Console
 import VirtioVerif.Model.EventQueues
 import VirtioVerif.Model.Init
+import VirtioVerif.Model.Gpu
+import VirtioVerif.Model.Sound
+import VirtioVerif.Model.SmallDevs
 /-!
 Native line-protocol driver over all models: one request line in, one reply line out.
 `case …` lines reset per-case state and are echoed as `case`.
@@ -26,6 +29,8 @@ structure World where
   vsock : VsockConn.World := {}
   con : Console.PState := Console.PState.empty
   evq : EventQueues.PState := EventQueues.PState.empty
+  gpu : Gpu.St := {}
+  snd : Sound.St := {}
 
 def World.fresh : World := {}
 
@@ -47,6 +52,11 @@ def step (w : World) (line : String) : World × String :=
   | "evq" :: op :: rest => let (c, o) := EventQueues.handle w.evq op (Proto.parseArgs rest); ({ w with evq := c }, o)
   | "con" :: op :: rest => let (c, o) := Console.handle w.con op (Proto.parseArgs rest); ({ w with con := c }, o)
   | "init" :: op :: rest => (w, Init.handle op (Proto.parseArgs rest))
+  | "rng" :: op :: rest => (w, Small.handle "rng" op (Proto.parseArgs rest))
+  | "rtc" :: op :: rest => (w, Small.handle "rtc" op (Proto.parseArgs rest))
+  | "p9" :: op :: rest => (w, Small.handle "p9" op (Proto.parseArgs rest))
+  | "snd" :: op :: rest => let (g, o) := Sound.handle w.snd op (Proto.parseArgs rest); ({ w with snd := g }, o)
+  | "gpu" :: op :: rest => let (g, o) := Gpu.handle w.gpu op (Proto.parseArgs rest); ({ w with gpu := g }, o)
   | _ => (w, "bad-op")
 
 partial def loop (h : IO.FS.Stream) (out : IO.FS.Stream) (w : World) : IO Unit := do
